@@ -439,4 +439,94 @@ theorem trie_cursor_refines_spec (F : List Nat) (t0 : T) (hmk : T.mk? F = some t
   · rw [filterCursor_eq hRI fb q (by rw [hF]; exact hq)]; exact hf fb q hq hne
   · rw [refineCursor_eq hRI ids hs q (by rw [hF]; exact hq)]; exact href ids q hs hq
 
+
+/-! ### FasterTrie histories that include reconstruct (any shuffle outcomes) -/
+
+inductive FOp2 where
+  | ins (pf : PF)
+  | erp (id : Nat) (pf : PF)
+  | recon (q : PF) (remove : Bool) (orc : List Nat)
+
+/-- model and specification side by side; a reconstruction with removal takes the returned entries out of the store -/
+def fstep2 (st : Option (FT × Spec)) : FOp2 → Option (FT × Spec)
+  | .ins pf => st.bind (fun p => (p.1.insert pf).map (fun r => (r.1, specInsert p.2 r.2 pf)))
+  | .erp id pf => st.bind (fun p => (p.1.erase id pf).map (fun t' => (t', specErase p.2 id)))
+  | .recon q remove orc => st.map (fun p => ((p.1.reconstruct q remove orc).1, esAfter remove p.2 (p.1.reconstruct q remove orc).2.1))
+
+def FOp2OK (F : List Nat) (es : Spec) : FOp2 → Prop
+  | .ins pf => ValidPF F pf ∧ pf ≠ []
+  | .erp id pf => ValidPF F pf ∧ pf ≠ [] ∧ ∀ e, (id, e) ∈ es → e = pf
+  | .recon q _ _ => ValidPF F q
+
+def FHist2OK (F : List Nat) : Option (FT × Spec) → List FOp2 → Prop
+  | none, _ => False
+  | some _, [] => True
+  | some p, op :: ops => FOp2OK F p.2 op ∧ FHist2OK F (fstep2 (some p) op) ops
+
+/-- **C20, FasterTrie, histories with reconstruct**: for every history of insert / erase(id,key) /
+    reconstruct(q, remove) calls and *every* outcome of every shuffle, the index keeps holding exactly the
+    specification's entries (those returned by a removing reconstruction are gone, nothing else is), so
+    `ft_filter_mem`, `ft_filter_nodup`, `ft_size_spec` and `reconstruct_compatible` hold in every reachable state. -/
+theorem fastertrie_refines_spec_reconstruct (F : List Nat) (ops : List FOp2) (t : FT) (es : Spec) (h : RIF t es) (hF : t.F = F)
+    (hok : FHist2OK F (some (t, es)) ops) :
+    ∃ t' es', ops.foldl fstep2 (some (t, es)) = some (t', es') ∧ RIF t' es' ∧ t'.F = F ∧
+      (∀ f id, f.length ≤ F.length → (∀ j, j < f.length → f.getD j 0 < F.getD j 0) →
+        (id ∈ t'.filter f ↔ id ∈ specFilter es' (prefixPF 0 f))) ∧
+      (∀ f, (t'.filter f).Nodup) ∧ t'.size = es'.length ∧
+      (∀ q remove orc, ValidPF F q →
+        (∀ e ∈ (t'.reconstruct q remove orc).2.1, e ∈ es' ∧ compatB e.2 q = true) ∧
+        (∀ e ∈ (t'.reconstruct q remove orc).2.1, ∀ e' ∈ (t'.reconstruct q remove orc).2.1, compatB e.2 e'.2 = true)) := by
+  induction ops generalizing t es with
+  | nil =>
+    refine ⟨t, es, rfl, h, hF, ?_, fun f => ft_filter_nodup h f, ft_size_spec h, ?_⟩
+    · intro f id hlen hval
+      exact ft_filter_mem h f (by rw [hF]; exact hlen) (by rw [hF]; exact hval) id
+    · intro q remove orc hq
+      have hkeys : ∀ i v, ∀ e ∈ bucket t.keys i v, ValidPF t.F e.2 := by
+        intro i v e he
+        obtain ⟨hi, hv⟩ := bucket_in_range h.shape he
+        exact (h.valid e.1 e.2 ((h.mem i v e hi hv).mp he).1).1
+      obtain ⟨c1, c2, c3, _, _⟩ := reconstruct_compatible t q remove orc hkeys (by rw [hF]; exact hq)
+      refine ⟨fun e he => ⟨?_, c2 e he⟩, c3⟩
+      obtain ⟨i, v, hb⟩ := c1 e he
+      obtain ⟨hi, hv⟩ := bucket_in_range h.shape hb
+      exact ((h.mem i v e hi hv).mp hb).1
+  | cons op ops ih =>
+    obtain ⟨hop, hrest⟩ := hok
+    cases op with
+    | ins pf =>
+      obtain ⟨t', he, h'⟩ := RIF_insert h (by rw [hF]; exact hop.1) hop.2
+      have hF' : t'.F = F := by
+        cases pf with
+        | nil => exact absurd rfl hop.2
+        | cons kv r => simp only [FT.insert, Option.some.injEq, Prod.mk.injEq] at he; rw [← he.1]; exact hF
+      have hs : fstep2 (some (t, es)) (.ins pf) = some (t', specInsert es t.counter pf) := by
+        simp only [fstep2, Option.bind_some, he, Option.map_some]
+      rw [hs] at hrest
+      simp only [List.foldl_cons, hs]
+      exact ih t' _ h' hF' hrest
+    | erp id pf =>
+      obtain ⟨t', he, h'⟩ := RIF_erase h id (by rw [hF]; exact hop.1) hop.2.1 hop.2.2
+      have hF' : t'.F = F := by
+        cases pf with
+        | nil => exact absurd rfl hop.2.1
+        | cons kv r => simp only [FT.erase, Option.some.injEq] at he; rw [← he]; exact hF
+      have hs : fstep2 (some (t, es)) (.erp id pf) = some (t', specErase es id) := by
+        simp only [fstep2, Option.bind_some, he, Option.map_some]
+      rw [hs] at hrest
+      simp only [List.foldl_cons, hs]
+      exact ih t' _ h' hF' hrest
+    | recon q remove orc =>
+      have h' := reconstruct_store h q remove orc
+      have hs : fstep2 (some (t, es)) (.recon q remove orc) =
+          some ((t.reconstruct q remove orc).1, esAfter remove es (t.reconstruct q remove orc).2.1) := rfl
+      rw [hs] at hrest
+      simp only [List.foldl_cons, hs]
+      exact ih _ _ h' hF hrest
+
+
+/-- the history theorem applies from the empty index, e.g. insert, insert, removing reconstruction -/
+example : FHist2OK [3, 2] (some (FT.new [3, 2], [])) [.ins [(0, 1)], .ins [(0, 2), (1, 0)], .recon [(1, 0)] true [2, 1]] := by
+  simp [FHist2OK, FOp2OK, fstep2, FT.insert, FT.new, specInsert, ValidPF, KeysAsc]
+
 end AITB.Trie
